@@ -240,11 +240,13 @@ def check_leaf(shape, node, p, frag):
         if not name.startswith("esc:"):
             return False, "literal text reaches the pattern without regex::escape (%s)" % name
         want = (shape == "lit-ci")
-        if flags.get("i") is not want:
-            return False, "case flag in force at the literal is %r, the literal's own flag is %r (it must be set explicitly)" % (flags.get("i"), want)
+        if flags.get("i") is not None and flags.get("i") is not want:
+            return False, "the fragment sets the case flag to %r but the literal's own flag is %r" % (flags.get("i"), want)
         if rx.capturing_groups(node):
             return False, "a literal emits a capturing group"
-        return True, "escaped text under an explicit (?%si)" % ("" if want else "-")
+        # whether the flag in force is right when the fragment does not set it itself is decided on whole
+        # patterns (rule_literal_flags): an encoder that only emits flag *changes* is equally correct
+        return True, "escaped text%s" % ("" if flags.get("i") is None else " under an explicit (?%si)" % ("" if want else "-"))
     return False, "unknown shape"
 
 
@@ -687,3 +689,82 @@ def rule_whole_anchor_only(F, R):
             anchored = len(items) >= 2 and items[0].kind == "bol" and items[-1].kind == "eol"
             R.check(anchored, "C04.whole", "anchor/" + name, "capture 0 is the whole path (pattern is ^...$)", where,
                     fail_msg="pattern %r is not anchored at both ends" % text)
+
+
+def literal_flag_sequences():
+    L = lambda n, ci: T.leaf("lit-ci" if ci else "lit", n)
+    alt = lambda *b: T.branch("alt", list(b))
+    cat = lambda *t: T.branch("cat", list(t))
+    rep = lambda body, lo=1, hi=2: T.branch("rep", [body], lower=lo, upper=hi)
+    seqs = {}
+    for a, b in itertools.product((False, True), repeat=2):
+        t = "%s%s" % ("I" if a else "s", "I" if b else "s")
+        seqs["lit,lit/" + t] = [L("a", a), L("b", b)]
+        seqs["lit,alt[lit]/" + t] = [L("a", a), alt(L("b", b))]
+        seqs["lit,alt[lit,lit]/" + t] = [L("a", a), alt(L("b", b), L("c", a))]
+        seqs["lit,rep[lit]/" + t] = [L("a", a), rep(L("b", b))]
+        seqs["lit,alt[alt[lit]]/" + t] = [L("a", a), alt(alt(L("b", b)), L("c", b))]
+        seqs["alt[lit],lit/" + t] = [alt(L("a", a)), L("b", b)]
+        seqs["alt[lit lit]/" + t] = [alt(cat(L("a", a), L("b", b)), L("c", b))]
+        seqs["lit,sep,lit/" + t] = [L("a", a), T.leaf("sep"), L("b", b)]
+        seqs["lit,zom,lit/" + t] = [L("a", a), T.leaf("zom"), L("b", b)]
+        seqs["lit,class,lit/" + t] = [L("a", a), T.leaf("class", "k"), L("b", b)]
+        seqs["lit,tree,lit/" + t] = [L("a", a), T.leaf("tree-rooted"), L("b", b)]
+        seqs["rep[lit lit],lit/" + t] = [rep(cat(L("a", a), L("b", b))), L("c", a)]
+        seqs["lit,rep[alt[lit]]/" + t] = [L("a", a), rep(alt(L("b", b), L("c", a)))]
+    return seqs
+
+
+def _literal_flags(tok, acc):
+    topo = strip(tok.fields["topology"])
+    v = strip(topo.fields["0"])
+    if topo.variant == "Leaf":
+        if v.variant == "Literal":
+            lit = strip(v.fields["0"])
+            t = strip(lit.fields["text"])
+            acc["esc:" + t.name] = strip(lit.fields["is_case_insensitive"])
+        return
+    inner = strip(v.fields["0"])
+    if v.variant == "Repetition":
+        _literal_flags(strip(inner.fields["token"]), acc)
+    else:
+        for ch in strip(inner.fields["0"]).items:
+            _literal_flags(strip(ch), acc)
+
+
+def rule_literal_flags(F, R, rule="C01.flag"):
+    """In whole compiled patterns, the case flag in force at every literal equals the literal's own
+    flag, whatever precedes it and however deeply it is nested (flags set in an enclosing group are
+    inherited by nested groups; flags set inside a group do not escape it)."""
+    where = where_encode(F)
+    n = 0
+    for name, toks in literal_flag_sequences().items():
+        want = {}
+        for t in toks:
+            _literal_flags(t, want)
+        for text, c in compile_pattern(F, toks):
+            if text is None:
+                R.fail(rule, "literal flags in " + name, "no pattern reaches Regex::new (%r)" % (c.result,), where)
+                continue
+            try:
+                node, p = rx.parse(text)
+            except rx.RxError as e:
+                R.fail(rule, "literal flags in " + name, "pattern %r not understood: %s" % (text, e), where)
+                continue
+            bad = []
+            seen = set()
+            for kind, flags, hname in p.atoms:
+                if kind != "hole" or hname not in want:
+                    continue
+                seen.add(hname)
+                if flags.get("i") is not want[hname]:
+                    bad.append((hname, flags.get("i"), want[hname]))
+            n += 1
+            if bad or seen != set(want):
+                R.fail(rule, "literal flags in " + name,
+                       "in %r the literals %s are matched with case-insensitivity %s (in force, own flag): a literal's casing must not "
+                       "depend on what precedes or encloses it (`(?i)a{(?-i)b}` must not match `aB`)" % (
+                           text, [b[0] for b in bad] or sorted(set(want) - seen), [(b[1], b[2]) for b in bad]), where)
+            else:
+                R.ok(rule, "literal flags in " + name, "every literal is matched under its own case flag", where, sample=(n % 17 == 0))
+    R.floor(rule, "whole patterns with literal flags", n, 40)
